@@ -579,3 +579,258 @@ Proof.
     unfold event_of. cbn [ca]. destruct cx; reflexivity.
 Qed.
 End Sim.
+
+(* ------------------------------------------------------------------ *)
+(* 4. every history                                                     *)
+
+Section Hist.
+Variable dr : Z -> list (Z * Z) -> option (list (Z * Z)).
+Variable nr : list (Z * Z) -> list (Z * Z).
+Variable sm : sessmap.
+Hypothesis dr_exact : forall last req out, dr last req = Some out -> forall x, covers out x = req_ids last req x.
+
+Definition hist_ok (h : list (fault * op)) : Prop :=
+  Forall (fun fo => op_ok sm (snd fo) /\ fault_ok (fst fo) (snd fo)) h.
+
+Lemma step_f_sim x fo : inv_hist x -> op_ok sm (snd fo) -> fault_ok (fst fo) (snd fo) ->
+  heq (abs (st (fst (step_f dr nr sm x fo))))
+      (hs_step (abs (st x)) (event_of sm x (snd fo) (snd (step_f dr nr sm x fo))))
+  /\ inv_hist (fst (step_f dr nr sm x fo)).
+Proof.
+  intros I OK FO.
+  pose proof (step_f_inv_num dr nr sm x fo (proj1 I)) as IN.
+  destruct (step_sim dr nr sm dr_exact (fst fo) x (snd fo) I OK FO) as [HS ID].
+  unfold step_f in *. destruct (step dr nr sm (fst fo) x (snd fo)) as [x1 o1]. cbn [fst snd] in *.
+  destruct (fst fo); cbn [fst snd st] in *; (split; [exact HS|]); (split; [exact IN|]); try exact ID.
+  destruct ID as [I0 _]. split; [exact I0|exact Logic.I].
+Qed.
+
+(* the refinement: what the stored rows show after a history is what the specification
+   computes from the accepted requests of that history *)
+Lemma run_refines h : forall x a, inv_hist x -> hist_ok h -> heq (abs (st x)) a ->
+  heq (abs (st (fst (run dr nr sm x h)))) (hs_run dr nr sm x h a) /\ inv_hist (fst (run dr nr sm x h)).
+Proof.
+  induction h as [|fo h IH]; intros x a I HO E; cbn [run hs_run fst]; [split; assumption|].
+  inversion HO as [|? ? [OK FO] HO']; subst.
+  destruct (step_f_sim x fo I OK FO) as [HS I1].
+  destruct (step_f dr nr sm x fo) as [x1 o1]. cbn [fst snd] in *.
+  specialize (IH x1 (hs_step a (event_of sm x (snd fo) o1)) I1 HO').
+  destruct (run dr nr sm x1 h) as [x2 os]. cbn [fst] in *. apply IH.
+  eapply heq_trans; [exact HS|]. apply hs_step_heq. exact E.
+Qed.
+End Hist.
+
+Definition fresh_hist (s : store) : Prop := fresh s /\ 0 <= t_delid s.
+Lemma fresh_inv_hist s n : fresh_hist s -> inv_hist (mkState s None n).
+Proof. intros [F D]. split; [apply fresh_inv; exact F|]. split; [exact D|exact I]. Qed.
+
+(* ------------------------------------------------------------------ *)
+(* 5a. {get data}                                                       *)
+
+Definition desc_ge (a b : msgrow) : Prop := m_seq b <= m_seq a.
+Definition desc_gt (a b : msgrow) : Prop := m_seq b < m_seq a.
+
+Lemma insert_desc_perm m l : Permutation (insert_desc m l) (m :: l).
+Proof.
+  induction l as [|x l IH]; cbn; [apply Permutation_refl|].
+  destruct (m_seq x <? m_seq m); [apply Permutation_refl|].
+  eapply Permutation_trans; [apply perm_skip; exact IH|apply perm_swap].
+Qed.
+Lemma sort_desc_perm l : Permutation (sort_desc l) l.
+Proof.
+  induction l as [|x l IH]; cbn; [constructor|].
+  eapply Permutation_trans; [apply insert_desc_perm|]. now apply perm_skip.
+Qed.
+Lemma insert_desc_sorted m l : StronglySorted desc_ge l -> StronglySorted desc_ge (insert_desc m l).
+Proof.
+  induction l as [|x l IH]; cbn; intros S; [constructor; constructor|].
+  inversion S as [|? ? S' F]; subst.
+  destruct (m_seq x <? m_seq m) eqn:E.
+  - constructor; [exact S|]. constructor; [unfold desc_ge; lia|].
+    eapply Forall_impl; [|exact F]. unfold desc_ge. intros b Hb. lia.
+  - constructor; [apply IH; exact S'|].
+    eapply Permutation_Forall; [apply Permutation_sym; apply insert_desc_perm|].
+    constructor; [unfold desc_ge; lia|exact F].
+Qed.
+Lemma sort_desc_sorted l : StronglySorted desc_ge (sort_desc l).
+Proof. induction l as [|x l IH]; cbn; [constructor|]. apply insert_desc_sorted. exact IH. Qed.
+
+Lemma sorted_nodup_strict l : StronglySorted desc_ge l -> NoDup (map m_seq l) -> StronglySorted desc_gt l.
+Proof.
+  induction l as [|x l IH]; intros S N; [constructor|].
+  inversion S as [|? ? S' F]; subst. inversion N as [|? ? NI N']; subst.
+  constructor; [apply IH; assumption|].
+  apply Forall_forall. intros b Hb. rewrite Forall_forall in F. specialize (F b Hb). unfold desc_ge, desc_gt in *.
+  assert (m_seq b <> m_seq x). { intros E. apply NI. rewrite <- E. now apply in_map. }
+  lia.
+Qed.
+
+Lemma nodup_map_filter {A B} (g : A -> B) p l : NoDup (map g l) -> NoDup (map g (filter p l)).
+Proof.
+  induction l as [|x l IH]; cbn; intros N; [constructor|].
+  inversion N as [|? ? NI N']; subst. destruct (p x); cbn; [|auto].
+  constructor; [|auto]. intros Hin. apply NI. apply in_map_iff in Hin. destruct Hin as [y [E Hy]].
+  apply filter_In in Hy. rewrite <- E. apply in_map. tauto.
+Qed.
+
+Lemma sorted_firstn {A} (R : A -> A -> Prop) n l : StronglySorted R l -> StronglySorted R (firstn n l).
+Proof.
+  revert l. induction n as [|n IH]; intros l S; cbn; [constructor|].
+  destruct l as [|x l]; [constructor|]. inversion S as [|? ? S' F]; subst.
+  constructor; [apply IH; exact S'|]. apply Forall_forall. intros b Hb. rewrite Forall_forall in F. apply F.
+  eapply firstn_In. exact Hb.
+Qed.
+
+Lemma sorted_app_rel {A} (R : A -> A -> Prop) l1 l2 : StronglySorted R (l1 ++ l2) ->
+  forall a b, In a l1 -> In b l2 -> R a b.
+Proof.
+  induction l1 as [|x l1 IH]; cbn; intros S a b Ha Hb; [destruct Ha|].
+  inversion S as [|? ? S' F]; subst. destruct Ha as [<-|Ha].
+  - rewrite Forall_forall in F. apply F. apply in_or_app. now right.
+  - eapply IH; eauto.
+Qed.
+
+(* the newest-first prefix of length n of a strictly ordered list *)
+Lemma firstn_newest (R : msgrow -> msgrow -> Prop) n l m : StronglySorted R l -> In m l ->
+  In m (firstn n l) \/ (length (firstn n l) = n /\ forall m', In m' (firstn n l) -> R m' m).
+Proof.
+  intros S Hm. rewrite <- (firstn_skipn n l) in Hm. apply in_app_or in Hm. destruct Hm as [Hm|Hm]; [now left|right].
+  split.
+  - apply firstn_length_le. destruct (Nat.le_gt_cases n (length l)) as [L|L]; [exact L|].
+    rewrite skipn_all2 in Hm by lia. destruct Hm.
+  - intros m' Hm'. rewrite <- (firstn_skipn n l) in S. eapply sorted_app_rel; eauto.
+Qed.
+
+Definition shown_to (s : store) (u : N) (since before : Z) (m : msgrow) : bool :=
+  (m_delid m =? 0) && in_window since before (m_seq m) && negb (logged_for s u (m_seq m)).
+
+Lemma get_all_filter s u since before limit :
+  ad_msg_get_all s u since before limit =
+  firstn (Z.to_nat (eff_limit max_msg_results limit)) (sort_desc (filter (shown_to s u since before) (msgs s))).
+Proof.
+  unfold ad_msg_get_all. f_equal. f_equal. apply filter_ext. intros m.
+  unfold shown_to, in_window, logged_for.
+  destruct (m_delid m =? 0); cbn [andb]; [|reflexivity].
+  destruct ((if 0 <? since then since else 0) <=? m_seq m); cbn [andb]; [|reflexivity].
+  destruct (0 <? before); [|reflexivity].
+  replace (m_seq m <=? before - 1) with (m_seq m <? before) by lia. reflexivity.
+Qed.
+
+Lemma eff_limit_bound mx limit : 0 < mx -> 0 < eff_limit mx limit <= mx /\ (0 < limit -> eff_limit mx limit <= limit).
+Proof. intros H. unfold eff_limit. destruct ((0 <? limit) && (limit <? mx)) eqn:E; lia. Qed.
+
+Lemma get_all_spec s u since before limit : NoDup (seqs s) ->
+  let ms := ad_msg_get_all s u since before limit in
+  let lim := Z.to_nat (eff_limit max_msg_results limit) in
+  (length ms <= lim)%nat /\
+  StronglySorted desc_gt ms /\
+  (forall m, In m ms -> In m (msgs s) /\ shown_to s u since before m = true) /\
+  (forall m, In m (msgs s) -> shown_to s u since before m = true ->
+     In m ms \/ (length ms = lim /\ forall m', In m' ms -> m_seq m < m_seq m')).
+Proof.
+  intros ND. cbn zeta. rewrite get_all_filter.
+  set (l := sort_desc (filter (shown_to s u since before) (msgs s))).
+  assert (StronglySorted desc_gt l) as SL.
+  { apply sorted_nodup_strict; [apply sort_desc_sorted|].
+    eapply Permutation_NoDup; [apply Permutation_map; apply Permutation_sym; apply sort_desc_perm|].
+    apply nodup_map_filter. exact ND. }
+  split; [apply firstn_le_length|]. split; [apply sorted_firstn; exact SL|]. split.
+  - intros m Hm. apply firstn_In in Hm. apply (Permutation_in _ (sort_desc_perm _)) in Hm.
+    apply filter_In in Hm. exact Hm.
+  - intros m Hm Sh.
+    assert (In m l) as Hl.
+    { apply (Permutation_in _ (Permutation_sym (sort_desc_perm _))). apply filter_In. split; assumption. }
+    destruct (firstn_newest desc_gt (Z.to_nat (eff_limit max_msg_results limit)) l m SL Hl) as [H|[H1 H2]]; [now left|right].
+    split; [exact H1|]. intros m' Hm'. apply H2 in Hm'. exact Hm'.
+Qed.
+
+Lemma find_msg_In s m : NoDup (seqs s) -> In m (msgs s) -> find_msg s (m_seq m) = Some m.
+Proof.
+  unfold find_msg, seqs. induction (msgs s) as [|y l IH]; cbn; intros ND Hm; [destruct Hm|].
+  inversion ND as [|? ? NI ND']; subst.
+  destruct Hm as [->|Hm]; [now rewrite Z.eqb_refl|].
+  destruct (m_seq y =? m_seq m) eqn:E; [|auto].
+  exfalso. apply NI. assert (m_seq y = m_seq m) as -> by lia. now apply in_map.
+Qed.
+Lemma find_msg_some s x m : find_msg s x = Some m -> In m (msgs s) /\ m_seq m = x.
+Proof. unfold find_msg. intros H. apply find_some in H. destruct H as [H1 H2]. split; [exact H1|lia]. Qed.
+
+(* a stored row is shown to u in the window iff the specification state shows it *)
+Lemma shown_to_visible s u since before m : NoDup (seqs s) -> In m (msgs s) ->
+  (shown_to s u since before m = true <->
+   in_window since before (m_seq m) = true /\ hs_visible (abs s) u (m_seq m) = Some (m_from m, m_content m)).
+Proof.
+  intros ND Hm. unfold shown_to, hs_visible, abs. cbn [hs_soft hs_live]. rewrite (find_msg_In s m ND Hm).
+  destruct (m_delid m =? 0), (in_window since before (m_seq m)), (logged_for s u (m_seq m)); cbn; intuition; discriminate.
+Qed.
+Lemma visible_row s u x a c : hs_visible (abs s) u x = Some (a, c) ->
+  exists m, In m (msgs s) /\ m_seq m = x /\ m_from m = a /\ m_content m = c.
+Proof.
+  unfold hs_visible, abs. cbn [hs_soft hs_live]. destruct (logged_for s u x); [discriminate|].
+  destruct (find_msg s x) as [m|] eqn:F; [|discriminate]. destruct (m_delid m =? 0); [|discriminate].
+  intros H. inv H. apply find_msg_some in F. destruct F as [F1 F2]. exists m. auto.
+Qed.
+
+Definition data_gt (a b : Z * N * N) : Prop := fst (fst b) < fst (fst a).
+
+Lemma data_of_frames sid ms tail :
+  (forall e, In e tail -> match snd e with Data _ _ _ => False | _ => True end) ->
+  data_of (map (fun m => (sid, Data (m_seq m) (m_from m) (m_content m))) ms ++ tail) =
+  map (fun m => (m_seq m, m_from m, m_content m)) ms.
+Proof.
+  intros HT. unfold data_of. rewrite flat_map_app.
+  assert (flat_map (fun e : N * frame => match snd e with Data q a c => [(q, a, c)] | _ => [] end) tail = []) as ->.
+  { induction tail as [|e t IH]; [reflexivity|]. cbn. pose proof (HT e (or_introl eq_refl)) as H.
+    destruct (snd e); try contradiction; cbn; apply IH; intros e' He'; apply HT; now right. }
+  rewrite app_nil_r. induction ms as [|m ms IH]; cbn; [reflexivity|]. now rewrite IH.
+Qed.
+
+(* the closing {ctrl} of an answer with n messages *)
+Definition data_closing (n : nat) : frame :=
+  match n with O => Ctrl 204 [(P_what, 1)] | _ => Ctrl 208 [(P_what, 1); (P_count, Z.of_nat n)] end.
+
+Lemma get_data_answer f s c n sid u since before limit :
+  is_reader (user_mode c u) = true -> fails f (S n) = false ->
+  let ms := ad_msg_get_all s u since before limit in
+  h_out (get_data f s c n sid u since before limit) =
+    map (fun m => (sid, Data (m_seq m) (m_from m) (m_content m))) ms ++ [(sid, data_closing (length ms))].
+Proof.
+  intros R F. cbn zeta. unfold get_data, call. rewrite R, F. cbn [negb].
+  destruct (ad_msg_get_all s u since before limit) as [|m ms]; reflexivity.
+Qed.
+
+Lemma get_data_exact f s c n sid u since before limit :
+  NoDup (seqs s) -> is_reader (user_mode c u) = true -> fails f (S n) = false ->
+  let o := h_out (get_data f s c n sid u since before limit) in
+  let fr := data_of o in
+  let lim := Z.to_nat (eff_limit max_msg_results limit) in
+  o = map (fun e => (sid, Data (fst (fst e)) (snd (fst e)) (snd e))) fr ++ [(sid, data_closing (length fr))] /\
+  (length fr <= lim)%nat /\
+  StronglySorted data_gt fr /\
+  (forall x a ct, In (x, a, ct) fr -> in_window since before x = true /\ hs_visible (abs s) u x = Some (a, ct)) /\
+  (forall x a ct, in_window since before x = true -> hs_visible (abs s) u x = Some (a, ct) ->
+     In (x, a, ct) fr \/ (length fr = lim /\ forall e, In e fr -> x < fst (fst e))).
+Proof.
+  intros ND R F. cbn zeta. rewrite (get_data_answer f s c n sid u since before limit R F).
+  rewrite data_of_frames by (intros e [<-|[]]; cbn; destruct (length _); exact I).
+  destruct (get_all_spec s u since before limit ND) as [L [S [SND CMP]]]. cbn zeta in *.
+  set (ms := ad_msg_get_all s u since before limit) in *.
+  split; [rewrite map_map, map_length; cbn [fst snd]; reflexivity|].
+  rewrite map_length. split; [exact L|]. split.
+  - clear -S. induction S as [|m l S IH F]; cbn; constructor; [exact IH|].
+    apply Forall_forall. intros e He. apply in_map_iff in He. destruct He as [m' [<- Hm']].
+    rewrite Forall_forall in F. apply F in Hm'. exact Hm'.
+  - split.
+    + intros x a ct Hin. apply in_map_iff in Hin. destruct Hin as [m [E Hm]]. inv E.
+      destruct (SND m Hm) as [H1 H2]. apply (shown_to_visible s u since before m ND H1). exact H2.
+    + intros x a ct W V. destruct (visible_row s u x a ct V) as [m [Hm [E1 [E2 E3]]]]. subst.
+      assert (shown_to s u since before m = true) as Sh by (apply (shown_to_visible s u since before m ND Hm); auto).
+      destruct (CMP m Hm Sh) as [H|[H1 H2]].
+      * left. apply in_map_iff. exists m. auto.
+      * right. split; [exact H1|]. intros e He. apply in_map_iff in He. destruct He as [m' [<- Hm']]. cbn. apply H2. exact Hm'.
+Qed.
+
+Lemma get_data_no_read f s c n sid u since before limit :
+  is_reader (user_mode c u) = false ->
+  h_out (get_data f s c n sid u since before limit) = [(sid, Ctrl 204 [(P_what, 1)])].
+Proof. intros R. unfold get_data. rewrite R. reflexivity. Qed.
